@@ -289,6 +289,35 @@ Proof.
   - pose proof (Permutation_length HP) as HL. rewrite app_length in HL. cbn [length] in HL. lia.
 Qed.
 
+(* the hypothesis in its familiar form: any two members are joined by a path of anticommuting members *)
+Inductive Reach (l : list pstr) : pstr -> pstr -> Prop :=
+| R_refl a : In a l -> Reach l a a
+| R_step a b c : Reach l a b -> In c l -> anti c b = true -> Reach l a c.
+Lemma reach_cut l S : incl S l -> forall a y, Reach l a y -> In a S -> ~ In y S -> exists a' b', In a' S /\ In b' l /\ ~ In b' S /\ anti b' a' = true.
+Proof.
+  intros Hi a y HR. induction HR as [a Ha|a b c HR IH Hc Hcb]; intros HaS Hy; [contradiction|].
+  destruct (memS b S) eqn:E.
+  - apply memS_In in E. exists b, c. repeat split; assumption.
+  - apply memS_false in E. apply IH; assumption.
+Qed.
+Theorem reach_connected l : (forall a b, In a l -> In b l -> Reach l a b) -> CutConnected l.
+Proof.
+  intros H S HS Hi [y [Hy HyS]]. destruct S as [|a S']; [congruence|].
+  apply (reach_cut l (a :: S') Hi a y); [apply H; [apply Hi; left; reflexivity|exact Hy]|left; reflexivity|exact HyS].
+Qed.
+Corollary gen_q_get_queue_reach n gens fuel : gens <> [] -> NoDup gens -> SameLen n gens -> (forall a b, In a gens -> In b gens -> Reach gens a b) ->
+  (length gens + 2 < fuel)%nat -> exists r, py_Q__get_queue fuel gens = FRet r /\ Permutation r gens /\ CO r.
+Proof. intros H1 H2 H3 H4 H5. apply (gen_q_get_queue n gens fuel H1 H2 H3 (reach_connected gens H4) H5). Qed.
+(* the premises are satisfiable *)
+Example reach_example : let g := [[PX;PI];[PZ;PI]] in g <> [] /\ NoDup g /\ SameLen 2 g /\ (forall a b, In a g -> In b g -> Reach g a b).
+Proof.
+  intros g. split; [discriminate|]. split; [repeat constructor; cbn; intuition discriminate|]. split; [intros x [<-|[<-|[]]]; reflexivity|].
+  assert (RX : Reach g [PX;PI] [PX;PI]) by (apply R_refl; cbn; tauto). assert (RZ : Reach g [PZ;PI] [PZ;PI]) by (apply R_refl; cbn; tauto).
+  intros a b [<-|[<-|[]]] [<-|[<-|[]]]; try assumption.
+  - apply (R_step g _ _ _ RX); [cbn; tauto|reflexivity].
+  - apply (R_step g _ _ _ RZ); [cbn; tauto|reflexivity].
+Qed.
+
 (* on a list that is not connected the loop of _get_queue never ends (Python: it spins; the model runs out of any fuel) *)
 Example gen_queue_runs :
   py_Q__get_queue 20 [[PX;PX;PI;PI];[PI;PX;PX;PI];[PI;PI;PX;PX];[PZ;PI;PI;PI];[PI;PZ;PI;PI];[PI;PI;PZ;PI];[PI;PI;PI;PZ]] =
@@ -547,6 +576,8 @@ Print Assumptions gen_q_anti_commutates.
 Print Assumptions gen_q_max_connected.
 Print Assumptions gen_q_append_to_queue.
 Print Assumptions gen_q_get_queue.
+Print Assumptions gen_q_get_queue_reach.
+Print Assumptions reach_example.
 Print Assumptions gen_queue_runs.
 Print Assumptions gen_q_check_dependency.
 Print Assumptions gen_q_check_dependency_refuted.
